@@ -32,6 +32,8 @@ RICH = [
     ("soft_then_hard", "Well... first line\nsecond line\\\nthird line  \nfourth \"quoted\" line\nfifth\n\n- item first\n  item second\\\n  item third\n"),
     ("escaped_numerals", "see section\n1\\. for the details and 2\\) too\n\n3\\. starts a paragraph\n\n- 4\\. in an item\n"),
     ("backslash_break", "A path ends C:\\\\\\\nnext line after a hard break\n\nfive of them \\\\\\\\\\\nthen text\n\n- item ends x\\\\\\\n  continued\n\n> quote \\\\\\\n> more\n\ntwo only \\\\\nno break here\n"),
+    ("link_label_text", "See [docs](http://other.example/x \"O\") and [api][docs] and [docs] and [API] here.\n\n[docs]: http://docs.example/ \"D\"\n[api]: http://api.example/\n"),
+    ("olist_zero", "0. zero\n1. one\n\n- 00. inner zero\n  01. inner one\n"),
     ("hardbreak_repeat", "yes\\\nno\\\nyes\\\nno\n\n- same line\\\n  other\\\n  same line\\\n  end\n\n> a  \n> a  \n> a\n"),
     ("table_then_escape", "| A | B |\n|---|---|\n| x | y |\n\n1\\. not a list\n\n- 2\\. text\n"),
 ]
